@@ -489,6 +489,11 @@ func RunStep(r *ev.Run, w *World, ac, rc *proxyrig.PGClient, st proxyrig.Step, h
 		if m == nil {
 			continue
 		}
+		if c != nil && proxyrig.MaskedPlaintextSpelledByStoredForm(*c, wr.V.Bytes()) {
+			// clear window + container tag "%%%" spells the whole value: its presence in the stream is no evidence
+			r.Count("db_stream_marker_checks_skipped(masked value whose hidden part is a prefix of the container tag)", 1)
+			continue
+		}
 		r.Count("db_stream_marker_checks", 1)
 		if how := leak(stream, m); how != "" {
 			r.Violation(sig("plaintext forwarded to the database ("+how+")", c), detail(map[string]interface{}{"column": wr.Col, "plaintext": ev.Hex(m)}))
